@@ -356,14 +356,14 @@ fn cases(tier: Tier) -> Vec<Case> {
                 v.push(Case {
                     desc: format!("containment sub={name} cause={cause:?} mailbox={}", mb.name()),
                     exec: ExecCfg { horizon: 30, cancel: if let Cause::Cancel(j) = cause { Some((a_index, j)) } else { None }, ..ExecCfg::default() },
-                    bound: if big { Some(if tier == Tier::Quick { 3 } else { 5 }) } else { None },
+                    bound: if big { Some(if tier == Tier::Quick { 4 } else { 6 }) } else { None },
                     scene: Box::new(S { parts: *parts, cause, mailbox: mb }),
                 });
             }
             v.push(Case {
                 desc: format!("containment full-scene cause={cause:?} mailbox={}", mb.name()),
                 exec: ExecCfg { horizon: 30, cancel: if let Cause::Cancel(j) = cause { Some((2, j)) } else { None }, ..ExecCfg::default() },
-                bound: Some(if tier == Tier::Quick { 2 } else { 4 }),
+                bound: Some(if tier == Tier::Quick { 3 } else { 4 }),
                 scene: Box::new(S { parts: full, cause, mailbox: mb }),
             });
         }
